@@ -867,15 +867,25 @@ class FnItem:
             cb = spec["closure_body"]
             at = [t.text for t in tokenize(cb["after"])]
             found = []
+            is_expr = bool(cb.get("expr"))
             for i in range(o, c - len(at)):
-                if [t.text for t in src.toks[i:i + len(at)]] == at and src.toks[i + len(at)].text == "{":
+                if [t.text for t in src.toks[i:i + len(at)]] == at and (is_expr or src.toks[i + len(at)].text == "{"):
                     found.append(i + len(at))
             if len(found) != 1:
                 raise Undecided("%s::%s: closure anchor %r found %d times" % (rel, spec["name"], cb["after"], len(found)))
             bo = found[0]
-            bc = src.match[bo]
             self.sig_src = cb["sig"] + " "
-            self.body_src = src.text[src.toks[bo].start:src.toks[bc].end]
+            if is_expr:
+                # expression closure `f(|x| EXPR)`: EXPR runs up to the `)` that closes the call the closure is an argument of
+                # (the anchor's last `(`); the slice is `{ EXPR }`
+                par = [k for k in range(bo - len(at), bo) if src.toks[k].text == "("]
+                if not par:
+                    raise Undecided("%s::%s: expression-closure anchor %r has no `(`" % (rel, spec["name"], cb["after"]))
+                pc = src.match[par[-1]]
+                self.body_src = "{ " + src.text[src.toks[bo].start:src.toks[pc].start].rstrip() + " }"
+            else:
+                bc = src.match[bo]
+                self.body_src = src.text[src.toks[bo].start:src.toks[bc].end]
             self.body_first_line = src.line_of(src.toks[bo].start)
             self.first_line = self.body_first_line
             self.impl_header = None
@@ -892,10 +902,30 @@ class FnItem:
         sig, body = self.sig_src, self.body_src
         hits = {}
         for hname in sp.get("inline_helpers", []):
-            src = Source(self._repo + "/" + self.rel)
-            cands = src.find_fn(hname)
-            for b in src.find_blocks("impl", "."):
-                cands += src.find_fn(hname, b[1] + 1, b[2])
+            def _cands(path):
+                sx = Source(path)
+                cx = sx.find_fn(hname)
+                for b in sx.find_blocks("impl", "."):
+                    cx += sx.find_fn(hname, b[1] + 1, b[2])
+                return sx, cx
+            src, cands = _cands(self._repo + "/" + self.rel)
+            if not cands:
+                # not in the caller's file: a helper added to another file of the same crate (e.g. a method on a type defined there)
+                import glob
+                crate_src = self._repo + "/" + self.rel.split("/src/")[0] + "/src"
+                allc = []
+                for path in sorted(glob.glob(crate_src + "/**/*.rs", recursive=True)):
+                    if path == self._repo + "/" + self.rel:
+                        continue
+                    try:
+                        sx, cx = _cands(path)
+                    except Exception:
+                        continue
+                    allc += [(sx, c) for c in cx]
+                if len(allc) == 1:
+                    src, cands = allc[0][0], [allc[0][1]]
+                else:
+                    raise Undecided("R21: helper fn %s found %d times in the crate of %s" % (hname, len(allc), self.rel))
             if len(cands) != 1:
                 raise Undecided("R21: helper fn %s found %d times in %s" % (hname, len(cands), self.rel))
             s0, fi0, o0, c0 = cands[0]
@@ -1000,6 +1030,9 @@ class FnItem:
                 n_closures += 1
         if n_closures > len(sp.get("closures") or {}):
             self.imprecise.append("%d closure(s) without a spliced contract" % (n_closures - len(sp.get("closures") or {})))
+        if re.search(r"\bas\s+f(64|32)\b", body):
+            # an integer -> float cast left in the text (no rewrite of the unit names it): this Verus gives it an arbitrary value
+            self.imprecise.append("float cast `as f64` without a model")
         if getattr(self, "default_instantiated", False):
             hits["R25"] = 1
         if getattr(self, "closure_sliced", False):
